@@ -1,4 +1,4 @@
-import FiberModel.C02.Lemmas
+import FiberModel.C02.Written
 /-
 C02 — locality of `Route.match` with respect to the 3-byte route-tree key (used by C01's
 `bucket_filter_eq`): a route whose first segment is a constant of ≥ 3 bytes can only match
@@ -109,8 +109,8 @@ theorem match_locality {chk : Constraint → Bytes → Bool} {cfg : Config} {use
   · rename_i pr pp hpr hpp
     cases hr
     simp only at hs
-    have hok := parseRoute_segsOK hpp s0 (by rw [hs]; exact List.mem_cons_self ..) hc
-    have hpre := parseRoute_head_const hpp hs hc
+    have hok := parseRouteW_segsOK hpp s0 (by rw [hs]; exact List.mem_cons_self ..) hc
+    have hpre := parseRouteW_head_const hpp hs hc
     exact routeMatch_locality hm hs hc hok.1 hpre
       (by simp only [beq_iff_eq]; exact id)
       (by simp only [beq_iff_eq]; intro h; rw [h]; rfl) h3 hno
